@@ -559,6 +559,10 @@ class Freshness:
                 for k in e.keywords:
                     if k.arg == "copy" and isinstance(k.value, ast.Constant) and k.value.value is False:
                         return ev(e.args[0]) if e.args else SCALAR
+            if name in ("numpy.array", "numpy.asarray", "numpy.empty", "numpy.full") and any(k.arg == "dtype" and "object" in ast.unparse(k.value) for k in e.keywords) and e.args:
+                # an object array is a container of references: its elements are the argument's elements
+                inner = ev(e.args[0])
+                return AV("cont", "fresh", [inner.elem()], why="object array holds references to the elements of its argument")
             return AV("arr", "fresh")
         if name in IDENTITY_FUNCS:
             a = ev(e.args[0]) if e.args else SCALAR
